@@ -47,6 +47,14 @@ Kind `subrx` (gen_subrx): sub-tasks of a delayed task selected by name (`d0:1`) 
 01f48fb (the by-name placeholder was taken for a task-creator by the regex loop).  Model: Delayed.filter_one with ss_sub
 (`subtask_placeholders`), variant SelHead; the code before the repair is SelLegacy (C15_MODEL_SELVER=SelLegacy for experiments).
 
+Kind `rxcand` (gen_rxcand, second phase of the driver: every seed, after the random kinds so that their generator stream is untouched):
+WHO is asked for a command-line target -- two creators, the producer of the target and another one with its OWN executed= trigger that
+cannot produce it by its own declaration (explicit target_regex that does not match + --auto-delayed-regex: the option gives the implicit
+`.*` only to creators WITHOUT a target_regex; the dual with the option off; positive controls where the other creator is a legitimate
+candidate), either one defined first; serial, scripted parallel schedules (2 per case), real threads, DoitMain; e2e_rxcand_family:
+`doit run [--auto-delayed-regex] out_b.txt | gen_a/x.txt | nothing.txt` under the serial, thread and process runners (exact log).
+Oracle RC (candidates_oracle, shapes regex-target-wrong-candidate / regex-target-candidate-missing; found the seeded change C15d).
+
 Independent oracle (no model): O1 a creator body starts at most once per run (every runner incl. real threads, DoitMain,
 and `python -m doit run -n 2 -P thread|process` on the fixed dodo family e2e_family); O1b a placeholder name is never
 reported before its creator ran; O2 only after a final report of the `executed` task; O3 tasks run once, after their
@@ -98,6 +106,8 @@ def gen_case(rng, kind=None):
         return gen_calc(rng)
     if kind == 'subrx':
         return gen_subrx(rng)
+    if kind == 'rxcand':
+        return gen_rxcand(rng)
     calm = rng.random() < 0.45
     # two command-line targets produced by the same creator, failure-free behaviours
     two = kind in ('regex', 'auto') and rng.random() < 0.4
@@ -525,6 +535,102 @@ def gen_subrx(rng):
     auto = rng.random() < 0.7
     return dict(statics=statics, creators=creators, sel=words, auto=auto, cont=rng.random() < 0.5, always=rng.random() < 0.1,
                 kind='subrx', twin=True)
+
+
+RXCAND_VARIANTS = ['auto/other-explicit-miss/producer-none'] * 4 + ['auto/other-explicit-miss/producer-explicit'] * 2 + \
+                  ['off/other-explicit-miss/producer-explicit'] * 2 + ['off/other-none/producer-explicit', 'auto/other-none (legit candidate)',
+                                                                       'other-explicit-match (legit candidate)']
+
+
+def gen_rxcand(rng):
+    """WHO may be asked for a command-line target.  Two delayed creators: the PRODUCER yields the task whose target is given on
+    the command line; the OTHER one cannot produce it by its own declaration and has its OWN `executed=` trigger s0 (with an
+    optional dependency s1) that nothing else needs.  Variants (case['rx']['variant'], first word: --auto-delayed-regex on/off):
+      auto/other-explicit-miss/producer-none      other: explicit target_regex that does NOT match; producer: no regex (implicit `.*`)
+      auto/other-explicit-miss/producer-explicit  other: explicit non-matching; producer: explicit matching
+      off/other-explicit-miss/producer-explicit   the dual: only explicit regexes decide
+      off/other-none/producer-explicit            other: no regex, option off: never a candidate
+      auto/other-none (legit candidate)           other: no regex, option on: candidate by the implicit `.*` (positive control)
+      other-explicit-match (legit candidate)      other: explicit regex that matches although it does not produce (positive control)
+    Either creator may be defined first (the wrong candidate defined first is asked first); 1-2 names in `creates` or none;
+    second word: another target of the producer, a sub-task of the producer by name, an unrelated static task; in ~1/8 of the
+    cases the word is a target the producer does not yield either (exit status 3).  case['twin'] = True (every name is yielded)"""
+    calm = rng.random() < 0.8
+    variant = rng.choice(RXCAND_VARIANTS)
+    auto = variant.startswith('auto') or (variant.startswith('other-explicit-match') and rng.random() < 0.5)
+    o = rng.choice([0, 0, 0, 1])          # position of the OTHER creator in definition order
+    p = 1 - o
+    have_s1 = rng.random() < 0.5
+    have_s3 = rng.random() < 0.5
+    p_trig = rng.random() < 0.6
+    snames = ['s0'] + (['s1'] if have_s1 else []) + (['s2'] if p_trig else []) + (['s3'] if have_s3 else [])
+    statics = []
+    for nm in snames:
+        statics.append(dict(name=nm, task_dep=['s1'] if (nm == 's0' and have_s1) else [], setup=[], file_dep=[],
+                            targets=['f_%s' % nm] if (nm == 's3' or rng.random() < 0.3) else [], beh=gen_beh(rng, calm)))
+    creators = [None, None]
+    for j in (0, 1):
+        fname = 'd%d' % j
+        r = rng.random()
+        creates = None if r < 0.65 else (['c%da' % j] if r < 0.85 else ['c%da' % j, 'c%db' % j])
+        c = dict(fname=fname, cid=j, creates=creates)
+        phs = creates or [fname]
+        if j == o:
+            c['executed'] = 's0'
+            if 'other-explicit-miss' in variant:
+                c['regex'] = rng.choice(['f_%s_' % fname, 'f_%s_[0-9]$' % fname, 'g_'])
+            elif variant.startswith('other-explicit-match'):
+                c['regex'] = rng.choice(['f_d', 'f_d%d_' % p])
+            else:
+                c['regex'] = None
+            pool = ['s0'] + (['s1'] if have_s1 else [])
+        else:
+            c['executed'] = 's2' if p_trig else None
+            if variant.endswith('producer-none'):
+                c['regex'] = None
+            elif variant.endswith('producer-explicit') or variant.startswith('other-explicit-match'):
+                c['regex'] = rng.choice(['f_%s_' % fname, 'f_d'])
+            else:
+                c['regex'] = rng.choice([None, 'f_%s_' % fname])
+            pool = (['s2'] if p_trig else []) + (['s3'] if have_s3 else [])
+        items = []
+        for ph in phs:
+            for sub in ['0', '1', '2'][:rng.choice([1, 2, 2, 3])]:
+                k = len(items)
+                items.append(dict(sub=sub, basename=ph, task_dep=[x for x in pool if rng.random() < 0.2][:1], setup=[],
+                                  targets=['f_%s_%d' % (fname, k)] if (k == 0 or rng.random() < 0.8) else [],
+                                  file_dep=(['f_%s_%d' % (fname, rng.randrange(0, k))] if (k and rng.random() < 0.15) else []),
+                                  beh=gen_beh(rng, calm)))
+        made = [t for x in items for t in x['targets']]
+        for it in items:
+            it['file_dep'] = [f for f in it['file_dep'] if f in made and f not in it['targets']]
+        c['shape'] = 'gen'; c['items'] = items
+        c['ph_beh'] = {ph: dict(DEFAULT_BEH, check=rng.choice(['run', 'run', 'run', 'utd'])) for ph in phs}
+        creators[j] = c
+    P, O = creators[p], creators[o]
+    tgts = [t for it in P['items'] for t in it['targets']]
+    missing = rng.random() < 0.12
+    words = ['f_%s_9' % P['fname'] if missing else rng.choice(tgts)]
+    r = rng.random()
+    if r < 0.12 and len(tgts) > 1:
+        words.append(rng.choice([t for t in tgts if t != words[0]]))
+    elif r < 0.2:
+        words.append(item_name(P, rng.choice(P['items'])))
+    elif r < 0.28 and have_s3:
+        words.append(rng.choice(['s3', 'f_s3']))
+    if rng.random() < 0.5:
+        rng.shuffle(words)
+    own = ['s0'] + (['s1'] if have_s1 else []) + list(O['creates'] or [O['fname']]) + [item_name(O, it) for it in O['items']]
+    return dict(statics=statics, creators=creators, sel=words, auto=auto, cont=rng.random() < 0.5, always=rng.random() < 0.1,
+                kind='rxcand', twin=True, rx=dict(variant=variant, other=o, producer=p, own=own))
+
+
+def declared_candidate(creator, word, auto):
+    """may this creator be asked for the command-line target `word`?  Judged on its DECLARATION only: its own target_regex
+    must match; a creator that declares none is a candidate only under --auto-delayed-regex (implicit `.*`)"""
+    if creator['regex']:
+        return re.match(creator['regex'], word) is not None
+    return bool(auto)
 
 
 # ------------------------------------------------------------------------------------------ namespace
@@ -1114,10 +1220,66 @@ def oracle(case, res, out, flavour, par=None):
         if e[0] == 14 and ':' in inv.get(e[3], ''):
             viol.append(dict(what='`%s`: creator evaluated through generate_tasks(%r, ...): a sub-task name used as the basename of the created tasks' % (
                 cmd, inv.get(e[3])), shape='subtask-placeholder-regex' if (by_name and rx_words) else 'creator-evaluated-for-subtask-name', case=small))
-    # O7 the created tasks behave like the identically defined static tasks (kinds calc, subrx)
+    # RC who may be asked for a regex-resolved command-line word (judged on the creators' declarations; no model)
+    viol += candidates_oracle(case, res, small, cmd, rx_words)
+    # O7 the created tasks behave like the identically defined static tasks (kinds calc, subrx, rxcand)
     if case.get('twin'):
         viol += twin_oracle(case, res, out, small)
     out.violations += viol
+    return viol
+
+
+def candidates_oracle(case, res, small, cmd, rx_words):
+    """RC (every kind, every runner; shapes `regex-target-wrong-candidate` / `regex-target-candidate-missing`).  For a command-line
+    word w that is no task, no known target and no sub-task of a task (so it is resolved through target_regex / --auto-delayed-regex)
+    the delayed creators asked for it -- one `_regex_target_<w>:<name>` task per placeholder name, whose `executed=` trigger is run
+    and whose creator is evaluated until somebody produces w -- are exactly those whose DECLARED target_regex matches w, plus,
+    only under --auto-delayed-regex, those that declare no target_regex (declared_candidate; the option does not override a
+    declared regex).  RC1 wrong candidate: a `_regex_target_<w>:<k>` task exists for a creator that is no candidate by its
+    declaration; RC2 missing candidate (selection accepted): a declared candidate got none; RC3 (kind rxcand, behaviour only: no
+    task names looked at): when the OTHER creator is no candidate for any word, neither its creator body nor its own trigger, the
+    trigger's dependency or any task it would create shows up in the run"""
+    viol = []
+    nid = res['nid']; ev = res['events']; tc = res['tc']
+    inv = {v: k for k, v in nid.m.items()}
+    ph_creator = {p: c for c in case['creators'] for p in (c['creates'] or [c['fname']])}
+    rejected = any(e[0] == 40 for e in ev)
+
+    def ran_for(c):
+        did = []
+        if c['executed'] and any(e[0] == 51 and inv.get(e[1]) == c['executed'] for e in ev):
+            did.append('its trigger %s was executed' % c['executed'])
+        elif c['executed'] and any(e[0] in (1, 2, 3, 4) and inv.get(e[1]) == c['executed'] for e in ev):
+            did.append('its trigger %s was processed' % c['executed'])
+        if any(e[0] == 50 and e[1] == c['cid'] for e in ev):
+            did.append('the creator was evaluated')
+        return ', '.join(did) or 'nothing run yet (the producer was found first / the run stopped before)'
+    for w in rx_words:
+        for k, c in ph_creator.items():
+            if not res['has_loader'].get(k):
+                continue
+            nm = '_regex_target_%s:%s' % (w, k)
+            allowed = declared_candidate(c, w, case['auto'])
+            if nm in tc.tasks and not allowed:
+                why = ('declares target_regex %r, which does not match %r (--auto-delayed-regex gives the implicit `.*` only to creators '
+                       'WITHOUT a target_regex)' % (c['regex'], w)) if c['regex'] else 'declares no target_regex and --auto-delayed-regex is off'
+                viol.append(dict(what='`%s`: delayed creator %s (executed=%s%s) %s, yet it was made a candidate producer of %s (task %s selected); '
+                                      'observed in this run: %s' % (cmd, c['fname'], c['executed'], ', creates=%s' % c['creates'] if c['creates'] else '', why, w, nm, ran_for(c)),
+                                 shape='regex-target-wrong-candidate', case=small))
+            elif allowed and nm not in tc.tasks and not rejected:
+                viol.append(dict(what='`%s`: delayed creator %s (target_regex=%r) is a candidate producer of %s by its declaration but no task %s was selected' % (
+                    cmd, c['fname'], c['regex'], w, nm), shape='regex-target-candidate-missing', case=small))
+    rx = case.get('rx')
+    if rx and rx_words:
+        O = case['creators'][rx['other']]
+        if not any(declared_candidate(O, w, case['auto']) for w in rx_words):
+            seen = sorted(set(inv.get(e[1]) for e in ev if e[0] in (1, 2, 3, 4, 5, 6, 51) and inv.get(e[1]) in rx['own']))
+            evald = any(e[0] in (14, 50) and e[1] == O['cid'] for e in ev)
+            if seen or evald:
+                viol.append(dict(what='`%s` (%s): creator %s (executed=%s, target_regex=%r) cannot produce %s by its own declaration and nothing else needs it, '
+                                      'yet %s%s' % (cmd, rx['variant'], O['fname'], O['executed'], O['regex'], rx_words,
+                                                    'the creator was evaluated; ' if evald else '', 'these tasks only it needs were processed: %s' % seen if seen else ''),
+                                 shape='regex-target-wrong-candidate', case=small))
     return viol
 
 
@@ -1626,6 +1788,112 @@ def e2e_subrx_family(ctx, out):
     return n
 
 
+# ------------------------------------------------------------------------------------------ end-to-end: who is asked for a target
+E2E_RXCAND_DODO = """
+import os
+from doit import create_after
+HERE = os.path.dirname(os.path.abspath(__file__))
+LOG = os.path.join(HERE, 'log.txt')
+DOIT_CONFIG = {'dep_file': os.path.join(HERE, 'db'), 'verbosity': 0, 'backend': 'json'}
+
+def rec(msg):
+    with open(LOG, 'a') as fobj:
+        fobj.write(msg + '\\n')
+
+def make(task):
+    rec('run:' + task.name)
+    for t in task.targets:
+        if os.path.dirname(t) and not os.path.isdir(os.path.dirname(t)):
+            os.makedirs(os.path.dirname(t))
+        with open(t, 'w') as fobj:
+            fobj.write('x')
+
+def task_prep_a():
+    return {'actions': [(rec, ['run:prep_a'])]}
+
+def task_prep_b():
+    return {'actions': [(rec, ['run:prep_b'])]}
+
+# explicit regex: everything this creator produces is under gen_a/
+@create_after(executed='prep_a', target_regex=r'gen_a/.*')
+def task_a():
+    rec('EVAL:a')
+    yield {'name': 'x', 'actions': [make], 'targets': ['gen_a/x.txt']}
+
+# no regex: reachable by target only with --auto-delayed-regex
+@create_after(executed='prep_b')
+def task_b():
+    rec('EVAL:b')
+    yield {'name': 'y', 'actions': [make], 'targets': ['out_b.txt']}
+"""
+A_RAN = ['run:prep_a', 'EVAL:a', 'run:a:x']
+B_RAN = ['run:prep_b', 'EVAL:b', 'run:b:y']
+# (--auto-delayed-regex, word, expected exit status, lines that must be logged, lines that may additionally be logged under the
+#  serial runner / under a parallel runner, what the command shows)
+E2E_RXCAND_CMDS = [
+    (True, 'out_b.txt', 0, B_RAN, [], [], 'creator a declares a target_regex that does not match: the option does not make it a candidate'),
+    (False, 'gen_a/x.txt', 0, A_RAN, [], [], 'explicit regex matches, option off: creator b (no regex) is no candidate'),
+    # b (no regex, option on) is a legitimate second candidate: with two workers its trigger is dispatched while prep_a runs
+    (True, 'gen_a/x.txt', 0, A_RAN, [], ['run:prep_b', 'EVAL:b'], 'explicit regex matches, option on: a (defined first) produces it'),
+    (False, 'out_b.txt', 3, [], [], [], 'no regex and option off: nobody is a candidate, invalid-parameter error, nothing runs'),
+    # (a parallel run may be stopped by the error before / while prep_b runs: `may`, not `must`)
+    (True, 'nothing.txt', 3, [], ['run:prep_b', 'EVAL:b'], ['run:prep_b', 'EVAL:b'], 'nobody produces it: only b may be asked'),
+]
+
+
+def e2e_rxcand_one(ctx, cmd_index, rargs, tag):
+    """`doit run [--auto-delayed-regex] <target>` on a dodo file with creator a (executed=prep_a, target_regex='gen_a/.*') and
+    creator b (executed=prep_b, no regex): exit status and EXACTLY which triggers ran / creators were evaluated / tasks ran"""
+    import subprocess
+    auto, word, want_rc, must, may_ser, may_par, shows = E2E_RXCAND_CMDS[cmd_index]
+    d = ctx.subdir('e2erxcand_%s' % tag)
+    import shutil
+    for fn in os.listdir(d):
+        fp = os.path.join(d, fn)
+        shutil.rmtree(fp) if os.path.isdir(fp) else os.remove(fp)
+    with open(os.path.join(d, 'dodo.py'), 'w') as f:
+        f.write(E2E_RXCAND_DODO)
+    argv = ['run'] + (['--auto-delayed-regex'] if auto else []) + rargs + [word]
+    try:
+        p = subprocess.run([common.PY, '-m', 'doit', '-f', os.path.join(d, 'dodo.py')] + argv, cwd=d, env=common.impl_env(),
+                           stdout=subprocess.PIPE, stderr=subprocess.PIPE, text=True, timeout=120)
+        rc, err = p.returncode, p.stderr
+    except subprocess.TimeoutExpired:
+        rc, err = 124, 'timeout'
+    lines = open(os.path.join(d, 'log.txt')).read().split() if os.path.exists(os.path.join(d, 'log.txt')) else []
+    cmd = '`doit %s`' % ' '.join(argv)
+    case = dict(e2e=True, e2e_rxcand=True, cmd_index=cmd_index, word=word, auto=auto, runner=rargs)
+    viol = []
+    may = may_par if rargs else may_ser
+    wrong = [l for l in lines if l not in must and l not in may]
+    if wrong:
+        a_side = [l for l in wrong if l in A_RAN]
+        viol.append(dict(what='%s (%s): %s happened although %s; log %s, expected exactly %s%s' % (
+            cmd, shows, wrong, ('creator a (target_regex gen_a/.*) cannot produce %s by its own declaration' % word) if a_side else
+            'nothing asks for it', lines, must, (' (optionally %s)' % may) if may else ''), shape='regex-target-wrong-candidate', case=case))
+    if rc != want_rc:
+        viol.append(dict(what='%s (%s): exit status %s, expected %s (stderr %s)' % (cmd, shows, rc, want_rc, err.strip().splitlines()[-1:]),
+                         shape='regex-target-e2e-exit-status', case=case))
+    if rc == want_rc == 0 and ([l for l in lines if l in must] != must or len(set(lines)) != len(lines)):
+        viol.append(dict(what='%s (%s): log %s, expected %s in this order, each once' % (cmd, shows, lines, must),
+                         shape='regex-target-producer-not-run', case=case))
+    return viol, (rc, lines, err)
+
+
+def e2e_rxcand_family(ctx, out):
+    n = 0
+    for i in range(len(E2E_RXCAND_CMDS)):
+        for j, rargs in enumerate(E2E_RUNNERS):
+            if ctx.quick and i >= 1 and j != i % 3:
+                continue
+            viol, _ = e2e_rxcand_one(ctx, i, rargs, '%d_%d' % (i, j))
+            out.violations += viol
+            out.count('e2e-rxcand:%s' % (' '.join(rargs[2:]) or 'serial'))
+            out.nontrivial.add(('e2e-rxcand', i, tuple(rargs)))
+            n += 1
+    return n
+
+
 # ------------------------------------------------------------------------------------------ driver
 def prepare(res, case):
     res['targets0'] = set()
@@ -1717,11 +1985,13 @@ def run(ctx):
                 'optionally a second creator triggered by a created name; kind `calc`: created tasks with calc_dep / task_dep / setup (taking over the '
                 'placeholder node: one dict, plain task named like the creator or an entry of creates, sub-task selected by name; sub-tasks; other '
                 'names), providers static or created, returning task_dep / file_dep on static targets / calc_dep, compared with the static twin; kind `subrx`: sub-tasks selected by name + words resolved by target_regex / --auto-delayed-regex '
-                '(existing targets, targets nobody produces), both orders, compared with the static twin.  Runners: serial Runner (trace compared with Delayed.run_cmd); '
+                '(existing targets, targets nobody produces), both orders, compared with the static twin; kind `rxcand` (own phase, %d cases): two creators, the producer of the '
+                'command-line target and another one with its own executed= trigger that is / is not a candidate by its declared target_regex x --auto-delayed-regex, '
+                'either defined first (oracle RC: the creators asked are exactly the declared candidates).  Runners: serial Runner (trace compared with Delayed.run_cmd); '
                 'MThreadRunner with 2-3 workers under the deterministic scheduler of runlib (every call of the runner into the dispatcher '
                 'recorded as a script and compared with Delayed.run_script_cmd; all multi cases, every 4th other case); MThreadRunner with '
-                'real threads; `python -m doit run [-n 2 -P thread|process]` on three fixed dodo families (several names in creates; created tasks with calc_dep vs static twins; sub-task by name + regex-resolved target).  non-trivial = distinct case in which a '
-                'creator was evaluated or the selection/run ended with an error')
+                'real threads; `python -m doit run [-n 2 -P thread|process]` on four fixed dodo families (several names in creates; created tasks with calc_dep vs static twins; sub-task by name + regex-resolved target; who is asked for a target).  non-trivial = distinct case in which a '
+                'creator was evaluated or the selection/run ended with an error') % ctx.n(30, 330)
     rng = ctx.rng
     n = ctx.n(330, 3630)
     kinds = [None] * 5 + ['k3', 'creates', 'regex', 'auto', 'unknown'] + ['multi'] * 4 + ['calc'] * 4 + ['subrx'] * 2
@@ -1731,96 +2001,104 @@ def run(ctx):
     n_dthread = 0
     n_main = 0
     skipped = 0
-    i = 0
-    while n_serial < n and i < 3 * n:
-        kind = kinds[i % len(kinds)]
-        i += 1
-        case = gen_case(rng, kind)
-        try:
-            res = run_impl(case)
-        except BaseException as e:  # noqa
-            res = dict(skip='harness-crash %r' % e)
-            out.mismatches.append(dict(case=str(case)[:2000], impl='harness crash %r' % e, model=None))
-        if 'skip' in res:
-            skipped += 1
-            out.count('skipped:' + res['skip'].split(':')[0])
-            continue
-        prepare(res, case)
-        idx = n_serial
-        n_serial += 1
-        defs, expr = render(case, res['snap'], res['wake'], res['nid'], str(idx))
-        expected = res['trace'] + [-1, res['rc']] + ([] if res['trace'][:1] == [40] else [-2, 1])
-        cases.append(dict(defs=defs, model=expr, expected=expected, desc=dict(sel=case['sel'], auto=case['auto'], kind=case['kind'])))
-        metas.append((case, res))
-        out.count('kind:' + case['kind'])
-        out.count('sel:' + ('all' if case['sel'] is None else str(len(case['sel'])) + 'w'))
-        ncreate = sum(1 for e in res['events'] if e[0] == 14)
-        out.count('creations:%d' % min(ncreate, 3))
-        out.count('rc:%s' % res['rc'])
-        if prenodes(res) >= 2:
-            out.count('serial: >=2 placeholder nodes of one creator before its evaluation')
-        for e in res['events']:
-            if e[0] in (15, 16, 30, 40, 11, 12):
-                out.count('error-event:%d' % e[0])
-        if ncreate or res['rc'] == 3:
-            out.nontrivial.add((str(case['sel']), tuple(res['trace'])))
-        oracle(case, res, out, 'serial')
-        calc_stats(case, res, out, 'serial')
-        if len(out.samples) < 3 and ncreate and case['sel']:
-            inv = {v: k for k, v in res['nid'].m.items()}
-            out.samples.append(dict(selection=case['sel'], creators=[dict(fname=c['fname'], executed=c['executed'], creates=c['creates'],
-                                                                          regex=c['regex']) for c in case['creators']],
-                                    names=inv, observed=expected))
-        # the same case on the thread runner under the deterministic scheduler: oracle + script compared with the model
-        if res['trace'][:1] != [40] and (case['kind'] in ('multi', 'calc', 'subrx') or idx % 4 == 0):
-            for tag in range(2 if (case['kind'] in ('multi', 'calc', 'subrx') or not ctx.quick) else 1):
-                par = dict(k=rng.choice([2, 2, 3]), sched=[rng.randrange(0, 60) for _ in range(40)])
-                res_p = run_parallel(ctx, case, out, idx, par, cases, metas, tag)
-                if res_p is not None:
-                    n_dthread += 1
-                    out.count('dthread-k:%d' % par['k'])
-                    if prenodes(res_p) >= 2:
-                        out.count('dthread: >=2 placeholder nodes of one creator before its evaluation')
-                    calc_stats(case, res_p, out, 'dthread')
-                    if sum(1 for e in res_p['events'] if e[0] == 14):
-                        out.nontrivial.add((str(case['sel']), 'dthread', tuple(res_p['strace'])))
-        # the same case on the thread runner (real threads): oracle only
-        if idx % (6 if ctx.quick else 3) == 0:
+    # phase 1: the random kinds (the generator stream of this phase does not depend on phase 2); phase 2: kind `rxcand`,
+    # systematically: who may be asked for a command-line target (gen_rxcand), same runners
+    n_rx = ctx.n(30, 330)
+    for target, kinds_ in ((n, kinds), (n + n_rx, ['rxcand'])):
+        i = 0
+        while n_serial < target and i < 3 * target:
+            kind = kinds_[i % len(kinds_)]
+            i += 1
+            case = gen_case(rng, kind)
             try:
-                res_t = run_impl(case, 'thread')
-                if 'skip' not in res_t:
-                    prepare(res_t, case)
-                    oracle(case, res_t, out, 'thread')
-                    n_thread += 1
-                    if res_t['rc'] in (97, 98):
-                        out.violations.append(dict(what='thread runner crashed: %s' % res_t['crash'], shape='thread-runner-crash',
-                                                   case=dict(case, flavour='thread')))
+                res = run_impl(case)
             except BaseException as e:  # noqa
-                out.violations.append(dict(what='thread runner run failed in the harness: %r' % e, shape='thread-runner-crash', case=dict(case, flavour='thread')))
-        # DoitMain end to end (real dependency manager, json DB in a temp dir): exit status and creator count
-        if idx % (10 if ctx.quick else 6) == 0:
-            c2 = strip_files(case)
-            rc_m, log_m, err_m = run_main(ctx, c2, idx)
-            n_main += 1
-            out.count('doitmain-rc:%s' % rc_m)
-            for c in c2['creators']:
-                k = sum(1 for e in log_m if e[0] == 50 and e[1] == c['cid'])
-                if k > 1:
-                    out.violations.append(dict(what='DoitMain run: creator %s evaluated %d times' % (c['fname'], k), shape='creator-evaluated-twice',
-                                               case=dict(c2, flavour='doitmain')))
-            res2 = None
-            try:
-                res2 = run_impl(c2)
-            except BaseException:  # noqa
-                pass
-            if res2 and 'skip' not in res2:
-                want3 = res2['rc'] == 3
-                if want3 != (rc_m == 3):
-                    out.violations.append(dict(what='DoitMain exit status %s but the runner-level run of the same namespace gave %s (%s)' % (
-                        rc_m, res2['rc'], err_m[-200:]), shape='doitmain-exit-status', case=dict(sel=case['sel'], auto=case['auto'])))
+                res = dict(skip='harness-crash %r' % e)
+                out.mismatches.append(dict(case=str(case)[:2000], impl='harness crash %r' % e, model=None))
+            if 'skip' in res:
+                skipped += 1
+                out.count('skipped:' + res['skip'].split(':')[0])
+                continue
+            prepare(res, case)
+            idx = n_serial
+            n_serial += 1
+            defs, expr = render(case, res['snap'], res['wake'], res['nid'], str(idx))
+            expected = res['trace'] + [-1, res['rc']] + ([] if res['trace'][:1] == [40] else [-2, 1])
+            cases.append(dict(defs=defs, model=expr, expected=expected, desc=dict(sel=case['sel'], auto=case['auto'], kind=case['kind'])))
+            metas.append((case, res))
+            out.count('kind:' + case['kind'])
+            if case.get('rx'):
+                out.count('rxcand:%s' % case['rx']['variant'])
+                out.count('rxcand: the other creator defined %s' % ('first' if case['rx']['other'] == 0 else 'second'))
+            out.count('sel:' + ('all' if case['sel'] is None else str(len(case['sel'])) + 'w'))
+            ncreate = sum(1 for e in res['events'] if e[0] == 14)
+            out.count('creations:%d' % min(ncreate, 3))
+            out.count('rc:%s' % res['rc'])
+            if prenodes(res) >= 2:
+                out.count('serial: >=2 placeholder nodes of one creator before its evaluation')
+            for e in res['events']:
+                if e[0] in (15, 16, 30, 40, 11, 12):
+                    out.count('error-event:%d' % e[0])
+            if ncreate or res['rc'] == 3:
+                out.nontrivial.add((str(case['sel']), tuple(res['trace'])))
+            oracle(case, res, out, 'serial')
+            calc_stats(case, res, out, 'serial')
+            if len(out.samples) < 3 and ncreate and case['sel']:
+                inv = {v: k for k, v in res['nid'].m.items()}
+                out.samples.append(dict(selection=case['sel'], creators=[dict(fname=c['fname'], executed=c['executed'], creates=c['creates'],
+                                                                              regex=c['regex']) for c in case['creators']],
+                                        names=inv, observed=expected))
+            # the same case on the thread runner under the deterministic scheduler: oracle + script compared with the model
+            if res['trace'][:1] != [40] and (case['kind'] in ('multi', 'calc', 'subrx', 'rxcand') or idx % 4 == 0):
+                for tag in range(2 if (case['kind'] in ('multi', 'calc', 'subrx', 'rxcand') or not ctx.quick) else 1):
+                    par = dict(k=rng.choice([2, 2, 3]), sched=[rng.randrange(0, 60) for _ in range(40)])
+                    res_p = run_parallel(ctx, case, out, idx, par, cases, metas, tag)
+                    if res_p is not None:
+                        n_dthread += 1
+                        out.count('dthread-k:%d' % par['k'])
+                        if prenodes(res_p) >= 2:
+                            out.count('dthread: >=2 placeholder nodes of one creator before its evaluation')
+                        calc_stats(case, res_p, out, 'dthread')
+                        if sum(1 for e in res_p['events'] if e[0] == 14):
+                            out.nontrivial.add((str(case['sel']), 'dthread', tuple(res_p['strace'])))
+            # the same case on the thread runner (real threads): oracle only
+            if idx % (6 if ctx.quick else 3) == 0:
+                try:
+                    res_t = run_impl(case, 'thread')
+                    if 'skip' not in res_t:
+                        prepare(res_t, case)
+                        oracle(case, res_t, out, 'thread')
+                        n_thread += 1
+                        if res_t['rc'] in (97, 98):
+                            out.violations.append(dict(what='thread runner crashed: %s' % res_t['crash'], shape='thread-runner-crash',
+                                                       case=dict(case, flavour='thread')))
+                except BaseException as e:  # noqa
+                    out.violations.append(dict(what='thread runner run failed in the harness: %r' % e, shape='thread-runner-crash', case=dict(case, flavour='thread')))
+            # DoitMain end to end (real dependency manager, json DB in a temp dir): exit status and creator count
+            if idx % (10 if ctx.quick else 6) == 0:
+                c2 = strip_files(case)
+                rc_m, log_m, err_m = run_main(ctx, c2, idx)
+                n_main += 1
+                out.count('doitmain-rc:%s' % rc_m)
+                for c in c2['creators']:
+                    k = sum(1 for e in log_m if e[0] == 50 and e[1] == c['cid'])
+                    if k > 1:
+                        out.violations.append(dict(what='DoitMain run: creator %s evaluated %d times' % (c['fname'], k), shape='creator-evaluated-twice',
+                                                   case=dict(c2, flavour='doitmain')))
+                res2 = None
+                try:
+                    res2 = run_impl(c2)
+                except BaseException:  # noqa
+                    pass
+                if res2 and 'skip' not in res2:
+                    want3 = res2['rc'] == 3
+                    if want3 != (rc_m == 3):
+                        out.violations.append(dict(what='DoitMain exit status %s but the runner-level run of the same namespace gave %s (%s)' % (
+                            rc_m, res2['rc'], err_m[-200:]), shape='doitmain-exit-status', case=dict(sel=case['sel'], auto=case['auto'])))
     n_e2e = e2e_family(ctx, out)
     n_e2e += e2e_calc_family(ctx, out)
     n_e2e += e2e_subrx_family(ctx, out)
+    n_e2e += e2e_rxcand_family(ctx, out)
     out.evaluations = len(cases) + n_e2e
     out.extra['serial_runs_compared_with_model'] = n_serial
     out.extra['deterministic_thread_runs_compared_with_model'] = n_dthread
@@ -1864,6 +2142,12 @@ def replay(ctx, payload):
     if case.get('e2e_subrx'):
         viol, (rc, lines, err) = e2e_subrx_one(ctx, list(case['words']), case['want_rc'], list(case['want_run']), list(case['runner']), 'replay')
         print('doit run --auto-delayed-regex %s: exit status %s, executed %s\n%s' % (' '.join(case['runner'] + case['words']), rc, lines, err.strip()[-600:]))
+        for v in viol:
+            print('VIOLATION-REPRODUCED shape=%s: %s' % (v['shape'], v['what']))
+        return 1 if viol else 0
+    if case.get('e2e_rxcand'):
+        viol, (rc, lines, err) = e2e_rxcand_one(ctx, case['cmd_index'], list(case['runner']), 'replay')
+        print('doit run %s%s: exit status %s, log %s\n%s' % ('--auto-delayed-regex ' if case['auto'] else '', ' '.join(case['runner'] + [case['word']]), rc, lines, err.strip()[-600:]))
         for v in viol:
             print('VIOLATION-REPRODUCED shape=%s: %s' % (v['shape'], v['what']))
         return 1 if viol else 0
